@@ -172,8 +172,8 @@ impl Property for C20 {
             knobs: Knobs { max_nodes: 30, variant, ..Default::default() },
         };
         match tier {
-            Tier::Quick => vec![mk("documents", 30_000, 0), mk("elements", 10_000, 1)],
-            Tier::Thorough => vec![mk("documents", 800_000, 0), mk("elements", 300_000, 1)],
+            Tier::Quick => vec![mk("documents", 250_000, 0), mk("elements", 80_000, 1)],
+            Tier::Thorough => vec![mk("documents", 2_000_000, 0), mk("elements", 600_000, 1)],
         }
     }
 
